@@ -245,8 +245,11 @@ def run_one(seed, tape, opts):
         for d in ("s2r", "r2s"):
             n = tape.choose(13, "nrec") if tape.choose(4, "many") else \
                 tape.choose(41, "nrec2")
+            if tape.choose(8, "backlog") == 0:
+                # a long run of small records (a reader that lags far behind)
+                n = 60 + tape.choose(120, "nrec3")
             recs[d] = [tape.blob(tape.pick(SIZES, "sz") if
-                                 tape.choose(3, "big") == 0 else
+                                 tape.choose(3, "big") == 0 and n < 60 else
                                  tape.choose(40, "small"), i)
                        for i in range(n)]
         tamper = None
